@@ -76,6 +76,20 @@ def _gen_case(rng, tier):
     sched = gen_schedule(rng, D, B)
     if D > 20000 and sched['mode'] in ('regular', 'rand', 'cuts'):
         sched = {'mode': 'regular', 'k': rng.choice([B - 1, B, 1000, 4096])}
+    ctype = None
+    if rng.random() < 0.12:
+        # a multipart body with an epilogue behind the closing delimiter: Content-Length covers it, so it belongs to
+        # the body like any other byte (the parser that runs alongside the reader must not end the read early)
+        from .. import gen_multipart as gm
+        fields = [{'kind': 'text', 'name': 'a', 'value': 'v' * rng.choice([0, 1, 5, 40])},
+                  {'kind': 'file', 'name': 'f', 'filename': 'x.bin', 'ctype': 'application/octet-stream',
+                   'data': (b'z' * rng.choice([0, 3, B, 3 * B + 1 if B < 300 else 50])).hex()}][:rng.choice([1, 2])]
+        mp, _ = gm.encode_fields(fields, 'bnd')
+        data = mp + rng.choice([b'', b'\r\n', b'\r\nepilogue', b'\r\n' + b'e' * (B + 2 if B < 300 else 9), b'--', b'\r\n--bnd--\r\n'])
+        D = len(data)
+        L = D if rng.random() < 0.8 else max(0, D - rng.randint(1, 3))
+        sched = gen_schedule(rng, D, B)
+        ctype = 'multipart/form-data; boundary=bnd'
     case = {
         'S': hx(data), 'L': L, 'B': B, 'sched': sched,
         'temp': 'mem' if rng.random() < 0.3 else 'real',
@@ -86,6 +100,9 @@ def _gen_case(rng, tier):
         # never read beyond Content-Length (a pipelined request may follow)
         case['M'] = max(0, rng.choice([0, 1, B, D - 1, D, D // 2, D + 1, 3]))
         case['retry'] = rng.random() < 0.5
+    if ctype:
+        case['ctype'] = ctype
+        case['via'] = 'wsgi'
     return case
 
 
@@ -149,8 +166,9 @@ def _run_case(case):
         log('direct')
     else:
         M = case.get('M')
-        o = body_request(S, case['sched'], B=B, M=M, cl=L, tempmode=case['temp'], touch=('body', 'input'),
-                         retry=bool(case.get('retry')))
+        o = body_request(S, case['sched'], B=B, M=M, cl=L, ctype=case.get('ctype'), tempmode=case['temp'],
+                         touch=('body', 'input', 'copy_body'),
+                         retry=(3 if case.get('retry') else 0))
         stream = o.stream
         status = o.resp.code
         log('status', o.resp.status)
@@ -184,6 +202,12 @@ def _run_case(case):
                       got=hx(body[:64]), expected=hx(expected[:64]))
         if body2 != body:
             violation(res, 'C04:reaccess-differs', 'second access of Request.body returned different bytes')
+        for k2 in ('copy_body', 'copy_body_partial'):
+            if case['via'] != 'direct' and status == 200 and o.seen.get(k2) != expected:
+                violation(res, 'C04:copy-body-differs',
+                          f'request.copy().body ({k2}: taken after the original body was read) has '
+                          f'{len(o.seen.get(k2) or b"")} bytes, the body has {len(expected)}')
+                break
         if inp is not None and inp != body:
             violation(res, 'C04:input-not-replaced', "environ['wsgi.input'] does not hold the buffered body")
     if stream.consumed > owed:
